@@ -1,3 +1,5 @@
+import os
+from .. import core
 from ..chanprop import ChanSpec
 from .c01 import C01
 
@@ -11,6 +13,26 @@ class C06(ChanSpec):
     rule = C01.rule + "; plus 1-2 closer goroutines (Close with distinct errors, optionally followed by a write); DFS reaches the 3-preemption schedule in which the sender is between Store idle and re-acquire"
     assumptions = ("bounded-wait mode: the guarantee is conditional on the sender not being stalled for 10 polls (executions in which the closer gave up are excused)",)
     modelled_not_verified = C01.modelled_not_verified
+
+    def harness(self, seed, count, tier):
+        lines = super().harness(seed, count, tier)
+        # codec/xhttp/request.go closes the channel on `Connection: close`: one real-time run with a 300 KiB response and a peer
+        # that takes about 1.5 s to drain it, on the bootstrap's default channel (waits for pending writes)
+        rc, so, se = core.run([os.path.join(core.BIN, "nvh"), "-prop", "C06", "-seed", str(seed), "-count", "1"], timeout=120)
+        lines += [l for l in so.split("\n") if l]
+        if rc != 0:
+            lines.append("C06 crash harness-exit-%d" % rc)
+        return lines
+
+    def nontrivial(self, line, answer):
+        if line.split()[1] == "http":
+            return True
+        return super().nontrivial(line, answer)
+
+    def extra_coverage(self, pairs):
+        d = super().extra_coverage([(l, a) for l, a in pairs if l.split()[1] != "http"])
+        d["input_distribution"]["http_close_path_runs"] = [l for l, a in pairs if l.split()[1] == "http"]
+        return d
 
 
 C06.level_text = ("Lean 4 theorems over the Chan LTS with the repaired wait loop (Close reads len(queue) first, then the ownership flag): for every capacity, number of writers and interleaving, "
